@@ -1,4 +1,5 @@
 import Srctools.Proofs.C12
+import Srctools.Proofs.C12Hist
 import Srctools.Gen.Save
 /-!
 # C12 — atomic file replacement: old or new contents, never a mixture
@@ -204,6 +205,109 @@ theorem C12_two_no_touch (c1 c2 : Cfg) (ok : TwoOK c1 c2) (fs0 : FS) (sched : Li
              else (run2 c1 c2 sched (Sys.init fs0)).pc2).owns = some n) :
     e.op = .create n ∧ e.res ≠ .ok :=
   step2_event ok (inv2_run ok sched (inv2_init c1 c2 fs0)) who f e he n ht hown
+
+/-! ## writer objects used several times (histories) -/
+
+/-- Translator fact: every path through `AtomicWriter.__exit__` assigns `self.temp = None`, so the
+object is back in its initial state after each use. -/
+theorem C12_gen_reset : Gen.Save.impl.resetTemp = true := by decide
+
+/-- **Each use of a re-used writer is a fresh writer.** For two writer objects with arbitrary lists
+of uses (scripts, body exceptions), any schedule and faults, in every reachable state: an object that
+is between uses holds no stale file object (`cur = none`, i.e. `self.temp is None`), and the next
+operation of an object that still has something to do is exactly the step of the single-use machine
+`step` for its current use — from `.mkdir` when it is between uses; the stale clean-up of
+`make_tempfile` is never executed. -/
+theorem C12_reuse_fresh (c1 c2 : OCfg) (ok : TwoOKO c1 c2) (fs0 : FS) (sched : List (Bool × Fault)) :
+    ((runO2 c1 c2 sched (SysO.init fs0)).o1.opc = .idle → (runO2 c1 c2 sched (SysO.init fs0)).o1.cur = none) ∧
+    ((runO2 c1 c2 sched (SysO.init fs0)).o2.opc = .idle → (runO2 c1 c2 sched (SysO.init fs0)).o2.cur = none) ∧
+    (∀ f, ¬ (runO2 c1 c2 sched (SysO.init fs0)).o1.inert c1 →
+      stepO c1 f (runO2 c1 c2 sched (SysO.init fs0)).fs (runO2 c1 c2 sched (SysO.init fs0)).o1 =
+        afterStep c1 (runO2 c1 c2 sched (SysO.init fs0)).o1 (runO2 c1 c2 sched (SysO.init fs0)).o1.pcView
+          (step (c1.cfgAt (runO2 c1 c2 sched (SysO.init fs0)).o1.use) f (runO2 c1 c2 sched (SysO.init fs0)).fs
+            (runO2 c1 c2 sched (SysO.init fs0)).o1.pcView)) ∧
+    (∀ f, ¬ (runO2 c1 c2 sched (SysO.init fs0)).o2.inert c2 →
+      stepO c2 f (runO2 c1 c2 sched (SysO.init fs0)).fs (runO2 c1 c2 sched (SysO.init fs0)).o2 =
+        afterStep c2 (runO2 c1 c2 sched (SysO.init fs0)).o2 (runO2 c1 c2 sched (SysO.init fs0)).o2.pcView
+          (step (c2.cfgAt (runO2 c1 c2 sched (SysO.init fs0)).o2.use) f (runO2 c1 c2 sched (SysO.init fs0)).fs
+            (runO2 c1 c2 sched (SysO.init fs0)).o2.pcView)) := by
+  have h := inv2O_run ok sched (inv2O_init c1 c2 fs0)
+  have h1 := (goodO_dest h.g1).2.1
+  have h2 := (goodO_dest h.g2).2.1
+  exact ⟨h1, h2, fun f hin => stepO_view c1 f _ _ h1 hin, fun f hin => stepO_view c2 f _ _ h2 hin⟩
+
+/-- **C12_two / C12_crash for histories.** Two writer objects, each used any number of times
+(sequential re-use, normal or exceptional exits), distinct destinations, interleaved by an arbitrary
+schedule with arbitrary faults, observed after any prefix (= crash point):
+* the temp files they hold are distinct;
+* each destination holds its initial contents or the **complete** contents written by one of the
+  uses of its writer started so far — never a mixture, never the other writer's bytes;
+* when an object is between uses and its last use returned normally, the destination holds exactly
+  what that use wrote;
+* every other non-temp file is untouched. -/
+theorem C12_hist_two (c1 c2 : OCfg) (ok : TwoOKO c1 c2) (fs0 : FS) (sched : List (Bool × Fault)) :
+    (∀ n1 n2, (runO2 c1 c2 sched (SysO.init fs0)).o1.pcView.owns = some n1 →
+        (runO2 c1 c2 sched (SysO.init fs0)).o2.pcView.owns = some n2 → n1 ≠ n2) ∧
+    (get (runO2 c1 c2 sched (SysO.init fs0)).fs c1.dest = get fs0 c1.dest ∨
+      ∃ j, j < (runO2 c1 c2 sched (SysO.init fs0)).o1.use ∧ j < c1.uses.length ∧
+        get (runO2 c1 c2 sched (SysO.init fs0)).fs c1.dest = some (finalContent (c1.cfgAt j).script)) ∧
+    (get (runO2 c1 c2 sched (SysO.init fs0)).fs c2.dest = get fs0 c2.dest ∨
+      ∃ j, j < (runO2 c1 c2 sched (SysO.init fs0)).o2.use ∧ j < c2.uses.length ∧
+        get (runO2 c1 c2 sched (SysO.init fs0)).fs c2.dest = some (finalContent (c2.cfgAt j).script)) ∧
+    ((runO2 c1 c2 sched (SysO.init fs0)).o1.opc = .idle →
+      ∀ out rest, (runO2 c1 c2 sched (SysO.init fs0)).o1.outs = out :: rest → out = .ok →
+        get (runO2 c1 c2 sched (SysO.init fs0)).fs c1.dest =
+          some (finalContent (c1.cfgAt ((runO2 c1 c2 sched (SysO.init fs0)).o1.use - 1)).script)) ∧
+    ((runO2 c1 c2 sched (SysO.init fs0)).o2.opc = .idle →
+      ∀ out rest, (runO2 c1 c2 sched (SysO.init fs0)).o2.outs = out :: rest → out = .ok →
+        get (runO2 c1 c2 sched (SysO.init fs0)).fs c2.dest =
+          some (finalContent (c2.cfgAt ((runO2 c1 c2 sched (SysO.init fs0)).o2.use - 1)).script)) ∧
+    (∀ x : Name, x.isTmp = false → x ≠ c1.dest → x ≠ c2.dest →
+        get (runO2 c1 c2 sched (SysO.init fs0)).fs x = get fs0 x) := by
+  have h := inv2O_run ok sched (inv2O_init c1 c2 fs0)
+  exact ⟨h.disj, (goodO_dest h.g1).1, (goodO_dest h.g2).1, (goodO_dest h.g1).2.2, (goodO_dest h.g2).2.2, h.frame⟩
+
+/-- **Nobody touches the other's temp file, also with re-used writers**: if the next operation of one
+object names the temp file the other currently holds, it is an exclusive-create probe and it fails. -/
+theorem C12_hist_no_touch (c1 c2 : OCfg) (ok : TwoOKO c1 c2) (fs0 : FS) (sched : List (Bool × Fault))
+    (who : Bool) (f : Fault) (e : Event)
+    (he : (stepO2 c1 c2 who f (runO2 c1 c2 sched (SysO.init fs0))).trace
+            = (who, e) :: (runO2 c1 c2 sched (SysO.init fs0)).trace)
+    (n : Nat) (ht : e.op.target = some n)
+    (hown : (if who then (runO2 c1 c2 sched (SysO.init fs0)).o1
+             else (runO2 c1 c2 sched (SysO.init fs0)).o2).pcView.owns = some n) :
+    e.op = .create n ∧ e.res ≠ .ok :=
+  stepO2_event ok (inv2O_run ok sched (inv2O_init c1 c2 fs0)) who f e he n ht hown
+
+/-- Without the reset (a stale closed file object stays on the writer and `make_tempfile` unlinks
+its name, `missing_ok=True`): writer A finishes a use (`tmp_1`), writer B claims `tmp_1`, A is
+re-entered, unlinks B's live `tmp_1`, re-creates it and writes `[3,3]`; B writes `[2]` into it and
+renames it: B's destination holds `[2,3]` — neither its old (absent) nor its new (`[2]`) contents.
+So `TwoOKO.r1/r2` (`C12_gen_reset` for the source) cannot be dropped. -/
+theorem C12_hist_unreset_clobbers :
+    get (runO2
+          ⟨{ implV1 with resetTemp := false, staleMissingOk := true }, .file 0, [⟨[.write [1]], none⟩, ⟨[.write [3, 3]], none⟩]⟩
+          ⟨{ implV1 with resetTemp := false, staleMissingOk := true }, .file 1, [⟨[.write [2]], none⟩]⟩
+          [(false, .none), (false, .none), (false, .none), (false, .none), (false, .none),
+           (true, .none), (true, .none),
+           (false, .none), (false, .none), (false, .none), (false, .none),
+           (true, .none), (true, .none), (true, .none)] (SysO.init [])).fs (.file 1) = some [2, 3] := by
+  decide +kernel
+
+/-- Non-vacuity: with the reset, the same history and schedule give both writers their own data
+(A is re-used while B is in flight and simply takes `tmp_2`). -/
+example :
+    (runO2 ⟨implV1, .file 0, [⟨[.write [1]], none⟩, ⟨[.write [3, 3]], none⟩]⟩
+          ⟨implV1, .file 1, [⟨[.write [2]], none⟩]⟩
+          [(false, .none), (false, .none), (false, .none), (false, .none), (false, .none),
+           (true, .none), (true, .none),
+           (false, .none), (false, .none), (false, .none),
+           (true, .none), (true, .none), (true, .none), (false, .none), (false, .none), (false, .none)]
+          (SysO.init [])).fs
+      = [(.file 0, [3, 3]), (.file 1, [2])] := by decide +kernel
+
+example : TwoOKO ⟨implV1, .file 0, [⟨[.write [1]], none⟩, ⟨[.write [3, 3]], none⟩]⟩
+    ⟨implV1, .file 1, [⟨[.write [2]], none⟩]⟩ := ⟨rfl, rfl, rfl, rfl, rfl, rfl, by decide⟩
 
 /-! ## the theorems at the shape of the current source -/
 
